@@ -7,4 +7,4 @@ mkdir -p /root/scratch
 git -C /repo worktree add -q --detach $W HEAD || exit 2
 trap "git -C /repo worktree remove --force $W" EXIT
 git -C $W apply "$p" || { echo "patch does not apply"; exit 2; }
-mkdir -p /root/scratch/ev; cd /verif && VERIF_EVIDENCE_DIR=/root/scratch/ev VERIF_REPO=$W ./check $id --tier $tier | tail -4
+mkdir -p /root/scratch/ev; cd ${TRY_VERIF:-/verif} && VERIF_EVIDENCE_DIR=/root/scratch/ev VERIF_REPO=$W ./check $id --tier $tier | tail -4
